@@ -21,6 +21,7 @@ import (
 	"runtime"
 	"sort"
 	"strings"
+	"unsafe"
 )
 
 // MaxThreads bounds the number of logical threads of one execution.
@@ -44,9 +45,10 @@ const (
 	opUnlock
 	opWgAdd
 	opClock
+	opAtomic
 )
 
-var opNames = [...]string{"none", "start", "Lock", "RLock", "send", "recv", "close", "Wait", "spawned", "yield", "Once.Do", "select", "Unlock", "wg.Add", "clock"}
+var opNames = [...]string{"none", "start", "Lock", "RLock", "send", "recv", "close", "Wait", "spawned", "yield", "Once.Do", "select", "Unlock", "wg.Add", "clock", "atomic"}
 
 func (k opKind) String() string { return opNames[k] }
 
@@ -157,6 +159,7 @@ type sched struct {
 	clock    int64
 	steps    int
 	chans    map[uintptr]*chanState
+	atomics  map[unsafe.Pointer]*atomicState
 	shadow   map[uintptrKey]*shadowCell
 	races    []Race
 	raceSeen map[string]bool
